@@ -130,7 +130,7 @@ fn body3(dbs: std::sync::Arc<nundb::bo::Databases>, mut sess: Session, tid: usiz
             };
             let ret = sched.seq.fetch_add(1, std::sync::atomic::Ordering::SeqCst);
             let msgs = sess.drain();
-            out.push(OpRec { tid, idx, line: line.clone(), resp, msgs, call, ret });
+            out.push(OpRec { tid, idx, line: line.clone(), resp, msgs, call, ret, ticks: crate::ilv::take_ticks() });
         }
         (out, sess)
     })
